@@ -88,7 +88,7 @@ prop('C06', 'pser', 'exploration',
 
 prop('C13', 'pser', 'exploration',
      'rapid draws history-dependent bitmaps; Freeze / FreezeTo (exact size, size+extra with sentinels, four too-small sizes) / WriteFrozenTo must agree byte for byte with GetFrozenSizeInBytes; the bytes are parsed by an independent strict decoder of the CRoaring frozen layout (arena order, tables, typecodes, count semantics per kind, cookie+count header); '
-     'FrozenView/MustFrozenView over the bytes in a PROT_READ guarded mapping must be Equal, validate, survive a generated write history (copying) with a forced GC, leave the bytes intact, and re-freeze identically; about a third of the cases then hand the library-written frozen bytes to C08's zero-copy operation machine (algebra in both roles, chunk-emptying removals, derived bitmaps, detaching, structural buffer oracle). Non-trivial = >=2 chunk kinds present; distinct = FNV-64 of the history. Regression: empty bitmap and 65536 chunks.',
+     'FrozenView/MustFrozenView over the bytes in a PROT_READ guarded mapping must be Equal, validate, survive a generated write history (copying) with a forced GC, leave the bytes intact, and re-freeze identically; about a third of the cases then hand the library-written frozen bytes to the zero-copy operation machine of C08 (algebra in both roles, chunk-emptying removals, derived bitmaps, detaching, structural buffer oracle). Non-trivial = >=2 chunk kinds present; distinct = FNV-64 of the history. Regression: empty bitmap and 65536 chunks.',
      T(4, 600, 16, 8000),
      'property-based round-trip + differential testing against an independent frozen-layout decoder; guarded read-only memory',
      'generated-input search with independent decoder and memory-protection instruments',
